@@ -307,9 +307,8 @@ def call(name, a):
     if name == "ArrayRange":
         if not all(is_int(x) for x in a) or a[2] == 0:
             raise IFail("")
-        if a[2] < 0:
-            raise Unspec("negative step")
-        r = list(range(a[0], a[1] + 1, a[2]))
+        # "the first argument is the first element, the second the final element, the third the increment": inclusive in either direction
+        r = list(range(a[0], a[1] + 1, a[2])) if a[2] > 0 else list(range(a[0], a[1] - 1, a[2]))
         if len(r) > 1000:
             raise IFail("")
         return r
